@@ -113,6 +113,44 @@ def occRrelLastWins {T : Type} (occs : List (Occ T)) (i : Nat) : Option T :=
   | some o => ((occs.filter (fun o' => o'.attr = o.attr)).getLast?).bind (·.rrel)
   | none => none
 
+/-! ### the two stores the grammar visitor fills
+
+`occRrel` / `occRrelLastWins` above say *what* a reference carries.  The code gets there through
+two stores, mirrored here statement by statement (`lang.py visit_assignment`, `model.py process_node`):
+```
+cls_attr.scope_provider = rhs_rule.scope_provider            # one slot per attribute, overwritten
+assignment_rule._scope_provider = obj_ref_rule.scope_provider # (repair) one slot per assignment
+…
+p = getattr(node.rule, "_scope_provider", metaattr.scope_provider)
+```
+`Proofs/Select.lean` proves that reading the stores gives `occRrel` (repaired) and
+`occRrelLastWins` (pinned: the per-assignment slot is never written). -/
+
+/-- what the visitor leaves behind for the assignments of one rule -/
+structure Visited (T : Type) where
+  /-- `cls_attr.scope_provider` per attribute name; the newest entry is in front (a later
+  assignment of the attribute overwrites the slot) -/
+  attrProv : List (String × Option T)
+  /-- per assignment rule, in textual order: `_scope_provider` if the attribute was set on it -/
+  asgProv : List (Option (Option T))
+deriving Repr
+
+/-- `visit_assignment` for one reference assignment; `perAsg` = the repaired visitor -/
+def visitStep {T : Type} (perAsg : Bool) (v : Visited T) (o : Occ T) : Visited T :=
+  { attrProv := (o.attr, o.rrel) :: v.attrProv,
+    asgProv := v.asgProv ++ [if perAsg then some o.rrel else none] }
+
+/-- the assignments of a rule are visited in textual order -/
+def visit {T : Type} (perAsg : Bool) (occs : List (Occ T)) : Visited T :=
+  occs.foldl (visitStep perAsg) { attrProv := [], asgProv := [] }
+
+/-- `getattr(node.rule, "_scope_provider", metaattr.scope_provider)` for the reference created at
+assignment `i` of attribute `attr` -/
+def refRrel {T : Type} (v : Visited T) (i : Nat) (attr : String) : Option T :=
+  match v.asgProv[i]? with
+  | some (some r) => r
+  | _ => (v.attrProv.lookup attr).getD none
+
 /-! ## what the selected provider is called with
 
 `create_rrel_scope_provider(tree_or_string, split_string=None)` builds an object of
